@@ -10,7 +10,7 @@ import (
 // Step is what the servers do with one attempt.
 type Step struct {
 	A string `json:"a"` // access: ok down refuse hang 4xx 5xx garbage emptyuri
-	W string `json:"w"` // websocket: down refuse 4xx 5xx garbage emptyuri accept hang
+	W string `json:"w"` // websocket: down refuse 4xx 5xx garbage emptyuri accept accepthang hang
 	K int    `json:"k"` // accept: messages each way before the drop
 }
 
@@ -29,6 +29,8 @@ type Obs struct {
 	Ws    bool  `json:"ws"`
 	Est   bool  `json:"est"`
 	K     int   `json:"k"`
+	// cancel iteration only: the server saw the client's TCP connection end within 1 s of the cancellation
+	Closed bool `json:"closed"`
 }
 
 // Trace is what the oracle works on (never sent to Coq): times are ns since launch.
@@ -71,6 +73,9 @@ func (s Step) coq() string {
 	if s.W == "accept" {
 		w = lib.App("AcceptThenDrop", lib.Nat(s.K))
 	}
+	if s.W == "accepthang" {
+		w = lib.App("AcceptThenHang", lib.Nat(s.K))
+	}
 	return lib.Tuple(accCoq[s.A], w)
 }
 
@@ -106,7 +111,7 @@ func (c Case) coq() string {
 	cp := lib.App("Some", lib.Tuple(lib.Nat(c.Cancel.I), ph))
 	obs := make([]string, len(c.Obs))
 	for i, o := range c.Obs {
-		obs[i] = lib.App("mkobs", lib.Z(o.GapSS), lib.Z(o.GapES), lib.Bool(o.Timed), lib.Bool(o.Acc), lib.Bool(o.Ws), lib.Bool(o.Est), lib.Nat(o.K))
+		obs[i] = lib.App("mkobs", lib.Z(o.GapSS), lib.Z(o.GapES), lib.Bool(o.Timed), lib.Bool(o.Acc), lib.Bool(o.Ws), lib.Bool(o.Est), lib.Nat(o.K), lib.Bool(o.Closed))
 	}
 	return lib.App("CLoop", l, c.cfg(), lib.List(sch), cp, lib.Bool(c.Returned), lib.List(obs))
 }
@@ -123,7 +128,7 @@ func stepFails(loop string, s Step) bool {
 	if loop == "auth" && s.A != "ok" {
 		return true
 	}
-	return s.W != "accept"
+	return s.W != "accept" && s.W != "accepthang"
 }
 
 // waitBefore is the generator's expectation of the wait in front of attempt i (used only to place
@@ -233,6 +238,12 @@ func genLoopCases(rng *lib.Rng, n int, thorough bool) []Case {
 				last.W = "hang"
 				opts = []Cancel{{I: ci, P: "ws"}}
 			}
+		}
+		if i%12 == 2 || i%12 == 11 {
+			// the peer goes silent after k messages (keeps the TCP connection, answers nothing, not even the
+			// close frame) and the context is cancelled while it hangs: the client must still close
+			last.A, last.W, last.K = "ok", "accepthang", r.Range(0, 6)
+			opts = []Cancel{{I: ci, P: "conn", J: last.K}}
 		}
 		if len(opts) == 0 { // e.g. plain, last = down, no wait due: make it a connection cancelled in use
 			last.A, last.W, last.K = "ok", "accept", r.Range(2, 9)
